@@ -511,6 +511,12 @@ where
 
     /// Generate random level for new node
     fn random_level(&self) -> usize {
+        #[cfg(feature = "verif-hooks")]
+        {
+            let forced = crate::verif_hooks::point(crate::verif_hooks::SKIP_LEVEL, 0);
+            if forced >= 1 { return ((forced - 1) as usize).min(MAX_LEVEL - 1); }
+        }
+        
         let mut level = 0;
         let mut rng = self.rng.write().unwrap();
         
@@ -525,6 +531,95 @@ where
     fn calculate_node_size(&self, levels: usize) -> usize {
         std::mem::size_of::<SkipListNode<K, V>>() + 
         levels * std::mem::size_of::<Option<*mut SkipListNode<K, V>>>()
+    }
+}
+
+#[cfg(feature = "verif-hooks")]
+impl<K, V> SkipList<K, V>
+where
+    K: Clone + Ord + Debug + std::hash::Hash + Eq,
+    V: Clone + PartialOrd + Debug,
+{
+    /// Walk every level and check the structural invariants of the list
+    pub fn verif_check_invariants(&self) -> std::result::Result<(), String> {
+        let inner = self.inner.read().unwrap();
+        unsafe {
+            // level 0: strictly increasing, counted, agrees with key_index
+            let mut level0: Vec<*mut SkipListNode<K, V>> = Vec::new();
+            let mut current = inner.head;
+            while let Some(next) = (&(*current).forward)[0] {
+                if level0.len() > inner.length + inner.key_index.len() + 1 {
+                    return Err("level 0 longer than length and index (cycle?)".to_string());
+                }
+                if let Some(&prev) = level0.last() {
+                    if self.compare_nodes(&(*prev).value, &(*prev).key, &(*next).value, &(*next).key) != Ordering::Less {
+                        return Err(format!("level 0 not strictly increasing at {:?}/{:?} -> {:?}/{:?}",
+                            (*prev).key, (*prev).value, (*next).key, (*next).value));
+                    }
+                }
+                if self.is_nan(&(*next).value) {
+                    return Err(format!("NaN score stored for {:?}", (*next).key));
+                }
+                match inner.key_index.get(&(*next).key) {
+                    Some(v) if v.partial_cmp(&(*next).value) == Some(Ordering::Equal) => {}
+                    other => return Err(format!("node {:?}/{:?} but index says {:?}", (*next).key, (*next).value, other)),
+                }
+                if (*next).forward.is_empty() || (*next).forward.len() > MAX_LEVEL {
+                    return Err(format!("node {:?} has {} levels", (*next).key, (*next).forward.len()));
+                }
+                level0.push(next);
+                current = next;
+            }
+            if level0.len() != inner.length {
+                return Err(format!("length {} but {} nodes on level 0", inner.length, level0.len()));
+            }
+            if inner.key_index.len() != inner.length {
+                return Err(format!("length {} but {} index entries", inner.length, inner.key_index.len()));
+            }
+            // level i: exactly the level-0 nodes that are tall enough, in the same order
+            let mut highest = 0;
+            for i in 1..MAX_LEVEL {
+                let expect: Vec<*mut SkipListNode<K, V>> = level0.iter().cloned().filter(|n| (**n).forward.len() > i).collect();
+                let mut got = Vec::new();
+                let mut current = inner.head;
+                while let Some(next) = (&(*current).forward)[i] {
+                    if got.len() > level0.len() {
+                        return Err(format!("level {} longer than level 0 (cycle?)", i));
+                    }
+                    if (*next).forward.len() <= i {
+                        return Err(format!("level {} reaches a node with only {} levels", i, (*next).forward.len()));
+                    }
+                    got.push(next);
+                    current = next;
+                }
+                if got != expect {
+                    return Err(format!("level {} links {} nodes, {} nodes are that tall (stale or missing link)", i, got.len(), expect.len()));
+                }
+                if !got.is_empty() { highest = i; }
+            }
+            if inner.level != highest {
+                return Err(format!("level field {} but highest non-empty level {}", inner.level, highest));
+            }
+        }
+        Ok(())
+    }
+    
+    /// Canonical text of the internal state: level-0 chain with node heights, level, length, index size
+    pub fn verif_shape(&self) -> String {
+        let inner = self.inner.read().unwrap();
+        let mut out = format!("level={} length={} index={} [", inner.level, inner.length, inner.key_index.len());
+        unsafe {
+            let mut current = inner.head;
+            let mut n = 0usize;
+            while let Some(next) = (&(*current).forward)[0] {
+                out.push_str(&format!("({:?} {:?} h={})", (*next).key, (*next).value, (*next).forward.len()));
+                current = next;
+                n += 1;
+                if n > inner.length + inner.key_index.len() + 1 { out.push_str("...cycle"); break; }
+            }
+        }
+        out.push(']');
+        out
     }
 }
 
